@@ -256,7 +256,13 @@ func (k *Kernel) park(kind msgKind, point string, idx int, arg string) resumeMsg
 
 func (k *Kernel) Yield(point string, idx int) {
 	if k.rowStride > 1 && isRowPoint(point) {
-		if k.rowCtr.Add(1)%k.rowStride != 0 {
+		// the shared counter is an atomic read-modify-write: without the bracket it
+		// would order every worker's row after the previous worker's row for the race
+		// detector and hide races between them
+		raceDisable()
+		skip := k.rowCtr.Add(1)%k.rowStride != 0
+		raceEnable()
+		if skip {
 			return
 		}
 	}
